@@ -50,6 +50,13 @@ def corpus():
                ["P", 7, 0, "none"], ["E", 0, [8, 6], "none", 0], ["C", 0, [1, 2, 3, 4, 5, 6], "none"],
                ["C", 0, [6, 1, 2, 3, 4, 5], "none"], ["C", 0, [1, 2, 3, 7, 4], "none"]):
         out.append(mk_case(U.mk_data("node", 9, names, "/", [["C", 0, [1, 2, 3, 4, 5], "none"], op, ["P", 5, None, "none"], op]), ("corpus", "clash-last")))
+    # a WIDE parent (66 children attached one by one), then one child swapped for a new one through the children setter
+    # (same length), then a duplicate of the new child's name (refused) and a node named like the dropped child (accepted)
+    wnames = ["r"] + ["c%d" % i for i in range(1, 67)] + ["new", "new", "c66"]
+    wops = [["P", i, 0, "none"] for i in range(1, 67)]
+    wops += [["C", 0, list(range(1, 66)) + [67], "none"], ["P", 68, 0, "none"], ["P", 69, 0, "none"], ["X", 0, "c66", "none"],
+             ["P", 66, 0, "none"], ["P", 68, 0, "post"], ["A", 0, 68, "none"]]
+    out.append(mk_case(U.mk_data("node", 70, wnames, "/", wops), ("corpus", "wide-parent")))
     # re-rooting and separator changes
     out.append(mk_case(U.mk_data("node", 4, ["a", "b", "a", "ab"], "/", [["P", 1, 0, "none"], ["P", 2, 1, "none"], ["Z", 2, "."], ["P", 1, None, "none"], ["Z", 2, "|"], ["P", 3, 2, "none"], ["P", 1, 0, "none"]]), ("corpus", "reroot")))
     out.append(mk_case(U.mk_data("node", 3, ["a", "b", "c"], "::", [["P", 1, 0, "none"], ["P", 2, 1, "none"], ["Z", 0, "/"], ["P", 2, None, "none"]]), ("corpus", "sep::")))
@@ -127,7 +134,7 @@ def impl(case):
             parts.append("corrupt")
             return " ; ".join(parts)
         parts.append(o + " " + U.show_snap(U.snap(nodes)) + " | " + U.show_paths(nodes))
-        if d.get("warm"):
+        if d.get("warm") or len(nodes) <= 9:
             U.show_lookups(nodes)       # look-ups after every call, results discarded (what they leave behind must not matter)
     return " ; ".join(parts) + " ;; " + U.show_lookups(nodes)
 
@@ -153,7 +160,7 @@ def oracle(case):
         before = after
         if msgs:
             return msgs
-        if d.get("warm"):
+        if d.get("warm") or len(nodes) <= 9:
             msgs += [f"after op {i} {U.fmt_op(op)}: {m}" for m in U.lookup_errors(nodes)]
             if msgs:
                 return msgs
